@@ -9,6 +9,7 @@ import (
 	"verif/mc"
 
 	re_clock "github.com/buildbarn/bb-remote-execution/pkg/clock"
+	"github.com/buildbarn/bb-remote-execution/pkg/proto/remoteworker"
 )
 
 // Suspend/Resume calls per storage reader and nesting depth per reader. The
@@ -67,6 +68,9 @@ func (w *world) key(clk *re_clock.SuspendableClock) string {
 	if w.tmr != nil {
 		st, _ := re_clock.VerifSuspendableTimerStopped(w.tmr)
 		s += fmt.Sprintf("|tmr=%v,%d", st, len(w.tmrCh))
+	}
+	if w.p.exec {
+		s += w.execKey()
 	}
 	return s
 }
@@ -344,6 +348,9 @@ func name(p params) string {
 	if p.timer {
 		k = "timer"
 	}
+	if p.exec {
+		k = "exec"
+	}
 	return fmt.Sprintf("%s-d%d-m%d-t%d", k, p.d, p.maxSusp, p.threshold)
 }
 
@@ -370,14 +377,23 @@ func scenario(p params, bounds map[string]int) *mc.Scenario {
 			x.SetKey(func() string { return w.key(clk) })
 
 			x.Go("R1", func() { w.reader(0, clk) })
-			x.Go("R2", func() { w.reader(1, clk) })
-			if p.timer {
-				x.Go("CMD", func() { w.commandTimer(clk) })
+			if p.exec {
+				// The real localBuildExecutor, one storage reader.
+				w.ex.fetchGate, w.ex.consGate = w.newGate(), w.newGate()
+				updates := make(chan *remoteworker.CurrentState_Executing)
+				x.Go("EXEC", func() { w.execThread(clk, updates) })
+				x.Go("CONS", func() { w.consumer(updates) })
+				w.addExecEvents()
 			} else {
-				x.Go("CMD", func() { w.commandContext(clk) })
+				x.Go("R2", func() { w.reader(1, clk) })
+				if p.timer {
+					x.Go("CMD", func() { w.commandTimer(clk) })
+				} else {
+					x.Go("CMD", func() { w.commandContext(clk) })
+				}
 			}
 
-			hardMax := p.maxStart + w.limit() + 2 + maxLate
+			hardMax := p.maxStart + p.maxPre + w.limit() + 2 + maxLate
 
 			// 1. Time passes: only at full quiescence. "tick": no due
 			// timer / deadline is awaiting delivery (for ticks taken while
@@ -568,6 +584,15 @@ func TestMC(t *testing.T) {
 				}
 			}
 		}
+	}
+	// The executor's use of the clock (exec_test.go).
+	for _, p := range []params{
+		{d: 2, maxSusp: 1, threshold: 1},
+		{d: 2, maxSusp: 0, threshold: 0},
+		{d: 3, maxSusp: 3, threshold: 0},
+	} {
+		p.exec, p.maxPre = true, 2
+		scs = append(scs, scenario(p, map[string]int{"quick": 0, "thorough": -1}))
 	}
 	mc.Main(t, scs, seqs())
 }
